@@ -177,6 +177,19 @@ func (m *Monitor) report(prop, oracle, msg string) {
 	m.Findings = append(m.Findings, Finding{Prop: prop, Oracle: oracle, Sig: sig + ":" + actionClass(m.action), Msg: fmt.Sprintf("[%s] %s; last events: %s", m.action, msg, strings.Join(m.trace, " ")), Action: m.action})
 }
 
+// reportClaim files a claim-accounting finding; the signature is the violated clause (never object names).
+func (m *Monitor) reportClaim(msg string) {
+	sig := "claim-accounting:" + claimSig(msg)
+	key := "C14" + sig + m.action
+	if m.seenSig[key] || len(m.Findings) >= m.maxFind {
+		return
+	}
+	m.seenSig[key] = true
+	m.Stats["claim_accounting_findings"]++
+	m.Findings = append(m.Findings, Finding{Prop: "C14", Oracle: "claim-accounting", Sig: sig + ":" + actionClass(m.action),
+		Msg: fmt.Sprintf("[%s] %s; last events: %s", m.action, msg, strings.Join(m.trace, " ")), Action: m.action})
+}
+
 func actionClass(a string) string {
 	switch a {
 	case "open":
@@ -193,6 +206,11 @@ func (m *Monitor) onEvent(kind string, e *framework.Event) {
 		m.Stats["event_status_"+e.Task.Status.String()]++
 		if e.Task.IsSharedGPUAllocation() {
 			m.Stats["event_shared_gpu"]++
+		}
+		if e.Task.Pod != nil && len(e.Task.Pod.Spec.ResourceClaims) > 0 {
+			// DRA: the dynamicresources plugin's handler ran for this event just before this one
+			m.Stats["dra_"+kind]++
+			m.Stats["dra_event_status_"+e.Task.Status.String()]++
 		}
 	}
 	if e != nil && e.Task != nil {
@@ -257,7 +275,7 @@ func (m *Monitor) onEvent(kind string, e *framework.Event) {
 			delete(m.initGroups, t.UID)
 		}
 		m.lastStatus[t.UID] = t.Status
-		m.trace = append(m.trace, fmt.Sprintf("%s(%s,%v,node=%s,groups=%v)", kind[:3], e.Task.Name, e.Task.Status, e.Task.NodeName, e.Task.GPUGroups))
+		m.trace = append(m.trace, fmt.Sprintf("%s(%s,%v,node=%s,groups=%v%s)", kind[:3], e.Task.Name, e.Task.Status, e.Task.NodeName, e.Task.GPUGroups, traceClaims(m.ssn, e.Task)))
 		if os.Getenv("VERIF_TRACE") != "" {
 			fmt.Fprintf(os.Stderr, "TRACE [%s] %s\n", m.action, m.trace[len(m.trace)-1])
 			if nn := os.Getenv("VERIF_TRACE_NODE"); nn != "" {
@@ -340,6 +358,10 @@ func (m *Monitor) checkAll(where string) {
 	}
 	for _, s := range CheckJobs(m.ssn, m.Stats) {
 		m.report("C14", "job-accounting", s)
+	}
+	// DRA (dra.go): claims recomputed from the pods vs the DRA manager's view
+	for _, s := range CheckClaims(m.ssn, m.Stats) {
+		m.reportClaim(s)
 	}
 	// queue usage is updated by the proportion handler which runs before this one for the same event
 	for _, s := range CheckQueues(m.ssn, sched.CurrentProportion, m.Stats) {
@@ -449,6 +471,8 @@ func Dump(ssn *framework.Session) []string {
 			out = append(out, fmt.Sprintf("queue %s alloc/np/request %s", id, strings.Join(parts, " ")))
 		}
 	}
+	// DRA (dra.go): the scheduler's view of every resource claim
+	out = append(out, DumpClaims(ssn)...)
 	sort.Strings(out)
 	return out
 }
@@ -495,6 +519,12 @@ func diffSig(d []string) string {
 			k = "node-shared-gpu"
 		case f[1] == "node":
 			k = "node-resources"
+		case f[1] == "claim":
+			k = "claim"
+		case f[1] == "claims":
+			k = "claim-device-set"
+		case f[1] == "claiminfo":
+			k = "pod-claim-info"
 		}
 		kinds[k] = true
 		key := f[1] + " " + f[2]
@@ -596,6 +626,9 @@ func (m *Monitor) onStatement(s *framework.Statement, phase string, cp int) {
 			return
 		}
 		m.Stats["rollbacks_checked"]++
+		if DRAEnabled {
+			m.Stats["rollbacks_checked_with_claim_view"]++ // DRA: the compared dumps contain the claim lines
+		}
 		if d := diffDump(want, Dump(m.ssn)); len(d) > 0 {
 			m.reportDiff("rollback-dump-mismatch", d, s)
 		}
@@ -628,6 +661,9 @@ func (m *Monitor) onStatement(s *framework.Statement, phase string, cp int) {
 			return
 		}
 		m.Stats["discards_checked"]++
+		if DRAEnabled {
+			m.Stats["discards_checked_with_claim_view"]++
+		}
 		if d := diffDump(st.d0, Dump(m.ssn)); len(d) > 0 {
 			m.reportDiff("discard-dump-mismatch", d, s)
 		}
@@ -687,6 +723,7 @@ func (m *Monitor) accountingMismatches() map[string]string {
 	add(CheckNodes(m.ssn, m.ghosts(), scratch))
 	add(CheckJobs(m.ssn, scratch))
 	add(CheckQueues(m.ssn, sched.CurrentProportion, scratch))
+	add(CheckClaims(m.ssn, scratch)) // DRA (dra.go)
 	return out
 }
 
